@@ -6,6 +6,7 @@ import (
 	"io"
 	"os"
 	"runtime"
+	"slices"
 	"strconv"
 	"strings"
 	"time"
@@ -210,6 +211,8 @@ func (c *Config) ParseEnv() error {
 // ParseConfig returns filled Config options from a configuration file.
 func ParseConfig(confFile string) (Config, error) {
 	conf := defaultConfig
+	// Do not share the backing array of the default root directories with the caller.
+	conf.Storage.RootDirs = slices.Clone(defaultConfig.Storage.RootDirs)
 
 	if confFile != "" {
 		f, err := os.Open(confFile)
